@@ -89,21 +89,41 @@ def rule_S3(ctx):
     # the loop over all slots
     loop = None
     for lp in eq.walk():
-        if lp["k"] == "for" and any(is_call(c, "bufs_modified") for c in calls_in(lp["body"])):
+        if lp["k"] in ("for", "while") and lp.get("c") is not None and \
+                any(is_call(c, "bufs_modified") for c in calls_in(lp["body"])):
             loop = lp
     if loop is None:
         raise AnalysisBroken("ec_quit: loop over the buffer table not found")
     c = loop["c"]
     init = loop.get("init")
     ivar = None
+    i0 = None
+    stepped = False
     if init is not None and init["k"] == "bin" and init["op"] == "=" and init["l"]["k"] == "ref":
         ivar = init["l"]["name"]
         i0 = cval(init["r"])
     elif init is not None and init["k"] == "decl":
         ivar = init["vars"][0]["name"]
         i0 = cval(init["vars"][0].get("init"))
-    good = ivar and i0 == 0 and c["k"] == "bin" and c["op"] == "<" and key(c["l"]) == ivar and \
-        cval(c["r"]) == N and "++" in key(loop["inc"])
+    elif c["k"] == "bin" and strip_casts(c["l"])["k"] == "ref":
+        # a while loop: the index is initialised by the last store that dominates the test
+        ivar = strip_casts(c["l"])["name"]
+        inits = [(n_, r_) for n_, lv_, op_, r_ in stores(eq.body)
+                 if lv_["k"] in ("ref", "var") and lv_.get("name") == ivar and op_ in ("=", "init") and
+                 cfg.pos(n_) is not None and cfg.dominates(n_, c) and
+                 not any(x["id"] == n_["id"] for x in walk(loop))]
+        if inits:
+            i0 = cval(inits[-1][1])
+    if loop.get("inc") is not None:
+        stepped = "++" in key(loop["inc"])
+    elif ivar:
+        steps = [n_ for n_, lv_, op_, r_ in stores(loop["body"]) if lv_["k"] == "ref" and lv_["name"] == ivar]
+        # one unit step, executed on every pass that reaches the end of the body (`continue`
+        # and early steps are judged by the iteration paths below)
+        stepped = len(steps) >= 1 and all(
+            n_.get("op") in ("post++", "pre++") or (n_.get("op") == "+=" and cval(n_["r"]) == 1) for n_ in steps)
+    good = ivar and i0 == 0 and c["k"] == "bin" and c["op"] == "<" and key(strip_casts(c["l"])) == ivar and \
+        cval(c["r"]) == N and stepped
     if good:
         ctx.ok("ec_quit", "quit walks all %d slots" % N, loc=eq.loc(loop))
     else:
